@@ -113,7 +113,10 @@ def handle (j : Json) : Json :=
       | some o =>
         if o.attr ≠ attr then badOp
         else
-          Json.mkObj [("prov", provJson (select Gen.providerOrder (register id raw) cls attr (occRrel occs i)))]
+          -- the RREL of the reference is read from the two stores the visitor fills (= `occRrel`,
+          -- `C32_visit_repaired`)
+          Json.mkObj [("prov", provJson (select Gen.providerOrder (register id raw) cls attr
+            (refRrel (visit true occs) i attr)))]
       | none => badOp
     | _, _, _, _, _ => badOp
   | some "calls" => handleCalls j
